@@ -437,7 +437,7 @@ def run_shard(params: dict, ctx) -> None:
     for cfg in cfgs:
         can_buf = cfg.is_buffered()
         for it in range(params["iters"]):
-            if ctx.viol_total > 200:
+            if ctx.should_stop(200):
                 return
             packets = [cfg.gen_packet(rng) for _ in range(rng.choice([1, 2, 3, 4]))]
             stream, ends, _ = drive.produce(cfg.stream_protocol(), packets)
